@@ -24,6 +24,7 @@ from pandera.errors import (
     FailureCaseMetadata,
     SchemaError,
     SchemaErrorReason,
+    SchemaErrors,
     SchemaWarning,
 )
 
@@ -189,8 +190,20 @@ class PandasSchemaBackend(BaseSchemaBackend):
 
     def drop_invalid_rows(self, check_obj, error_handler: ErrorHandler):
         """Remove invalid elements in a check obj according to failures in caught by the error handler."""
+        # pylint: disable=import-outside-toplevel,cyclic-import
+        from pandera.api.pandas.types import is_table
+
         errors = error_handler.schema_errors
         for err in errors:
+            if not is_table(err.failure_cases):
+                # the error is not attributable to rows (e.g. wrong data type,
+                # missing column, scalar check output), so it cannot be
+                # resolved by dropping rows.
+                raise SchemaErrors(
+                    schema=err.schema,
+                    schema_errors=errors,
+                    data=check_obj,
+                )
             index_values = err.failure_cases["index"]
             if isinstance(check_obj.index, pd.MultiIndex):
                 # MultiIndex values are saved on the error as strings so need to be cast back
